@@ -52,6 +52,19 @@ Definition show_fs (ops : list fop) (keys : list Z) : list string :=
                :: map (fun k => (match f_fs st k with Some v => zs v | None => "none" end) ++ (match f_locks st k with None => "" | Some _ => "+lock" end)) keys
                ++ map (fun i => match f_obs st i with Some (Some v) => zs v | Some None => "none" | None => "-" end) (seq 0 (List.length ops))
   end.
+(* asynchronous FilesystemStore: all issues first, then completions one by one *)
+Fixpoint run_steps (ops : list fop) (st : fstate) (groups : list (list label)) (keys : list Z) : list string :=
+  match groups with
+  | [] => []
+  | g :: r =>
+    match frun_from ops st g with
+    | None => ["STUCK"]
+    | Some st' =>
+      (String.concat " " (map (fun k => match f_fs st' k with Some v => zs v | None => "none" end) keys)
+       ++ (if forallb (fun k => match f_locks st' k with None => true | Some _ => false end) keys then "" else " +lock"))
+      :: run_steps ops st' r keys
+    end
+  end.
 (* MonitorUpdatingPersister: abstract monitors carry only their id *)
 Definition mon (i : Z) : monitor unit := {| mid := i; mst := tt |}.
 Definition uidz (u : Z) : Z := u.
@@ -73,7 +86,46 @@ Fixpoint trace (maxp : Z) (s : sstate mkey (val unit Z)) (cs : list (call unit Z
     let ops := call_ops unit Z uidz maxp s c' in
     String.concat " " (map show_op ops) :: trace maxp (apply_sops mkey_eqb s ops) r
   end.
+(* the same with per-call outcomes (failed write / subset of removals) *)
+Fixpoint trace_f (maxp : Z) (s : sstate mkey (val unit Z)) (cs : list (call unit Z)) (xs : list csel) : list string :=
+  match cs, xs with
+  | c :: r, x :: xr =>
+    let c' := match c with CCleanup lazy _ => CCleanup lazy (limbo s) | _ => c end in
+    let ops := sel_ops unit Z (call_ops unit Z uidz maxp s c') x in
+    String.concat " " (map show_op ops) :: trace_f maxp (apply_sops mkey_eqb s ops) r xr
+  | _, _ => []
+  end.
 """
+
+
+def generate(ctx):
+    """Anchored structural pin: in update_persisted_channel both clean-ups after the full-monitor write must
+    sit inside `if let Ok(()) = write_status { ... }` (a proof obligation of C19_mup_faulty_crash_consistent:
+    the model applies nothing when the write failed)."""
+    src = open(os.path.join(core.REPO, "lightning/src/util/persist.rs")).read()
+    a = src.find("let write_status = write_fut.await;")
+    if a < 0:
+        raise ValueError("C19 generate: anchor `let write_status = write_fut.await;` not found")
+    b = src.find("write_status\n", a + 40)
+    seg = src[a:b if b > 0 else a + 1500]
+    g = seg.find("if let Ok(()) = write_status {")
+    if g < 0:
+        raise ValueError("C19 generate: guard `if let Ok(()) = write_status {` not found after the full-monitor write")
+    depth, end = 0, None
+    for i in range(g, len(seg)):
+        if seg[i] == "{":
+            depth += 1
+        elif seg[i] == "}":
+            depth -= 1
+            if depth == 0:
+                end = i
+                break
+    inside = seg[g:end] if end else ""
+    for call in ("cleanup_stale_updates_for_monitor_to(", "cleanup_in_range("):
+        if call not in inside or seg.count(call) != inside.count(call):
+            raise ValueError("C19 generate: `%s` is not (only) inside the `if let Ok(()) = write_status` guard" % call[:-1])
+    ctx.gen_meta = [{"pin": "cleanup guarded by write_status", "file": "lightning/src/util/persist.rs", "offset": a}]
+    return ctx.gen_meta
 
 
 def parse_strs(v):
@@ -207,10 +259,120 @@ def fs_mt(ctx, ver, seed, threads, per, nkeys):
     return rc, nops, problems, [l for l in rlines(lines) if l.startswith("H ")]
 
 
+# ------------------------------------------------------------------ FilesystemStore, async API
+def fs_aseq(ctx, ver, seed, nscen):
+    d = os.path.join(ctx.tmp, "afs-%s-%d" % (ver, seed))
+    rc, lines = ctx.run_bin("h_fsstore", "", args=["aseq", ver, str(seed), str(nscen), d], timeout=600)
+    scen = {}
+    for l in rlines(lines):
+        if not l.startswith("A "):
+            continue
+        p = l.split()
+        sid = int(p[1])
+        if p[2] == "ops":
+            semi = p.index(";")
+            scen[sid] = {"ops": p[3:semi], "order": [int(x) for x in p[semi + 2:]], "steps": []}
+        elif p[2] == "step":
+            scen[sid]["steps"].append({"op": int(p[5]), "res": p[7], "state": p[9:]})
+    return rc, scen
+
+
+def judge_aseq(sc, nkeys=2):
+    """KVStore contract: whatever the completion order, each key reflects the operations in ISSUE order:
+    after every completion the key holds the effect of the latest-issued completed write/remove."""
+    problems = []
+    ops = sc["ops"]
+    done = []
+    if len(sc["steps"]) != len(sc["order"]):
+        return ["%d results for %d operations" % (len(sc["steps"]), len(sc["order"]))]
+
+    def state_of(k):
+        best = None
+        for i in done:
+            p = ops[i].split(":")
+            if p[0] in ("W", "D") and int(p[1]) == k and (best is None or i > best):
+                best = i
+        if best is None:
+            return "none"
+        p = ops[best].split(":")
+        return p[2] if p[0] == "W" else "none"
+
+    for st in sc["steps"]:
+        i = st["op"]
+        p = ops[i].split(":")
+        before = [state_of(k) for k in range(nkeys)]
+        if p[0] == "G":
+            if st["res"] != before[int(p[1])]:
+                problems.append("read of key %s returned %s, completed operations in issue order give %s" % (p[1], st["res"], before[int(p[1])]))
+        elif p[0] == "L":
+            want = "[" + ",".join(str(k) for k in range(nkeys) if before[k] != "none") + "]"
+            if st["res"] != want:
+                problems.append("list returned %s, expected %s" % (st["res"], want))
+        elif st["res"] != "ok":
+            problems.append("operation %s failed: %s" % (ops[i], st["res"]))
+        done.append(i)
+        after = [state_of(k) for k in range(nkeys)]
+        if st["state"] != after:
+            problems.append("after completing %s (issue index %d) the keys hold %s; the latest ISSUED completed operations give %s"
+                            % (ops[i], i, st["state"], after))
+            break
+    return problems
+
+
+def aseq_coq(sc, nkeys=2):
+    """FsStoreProto schedule: all issues (LFetch, LRef) in issue order, then one group per completion."""
+    fops, idx = [], {}
+    for i, o in enumerate(sc["ops"]):
+        p = o.split(":")
+        if p[0] == "L":
+            continue
+        idx[i] = len(fops)
+        if p[0] == "W":
+            fops.append("Build_fop %s (FWrite %s)" % (p[1], p[2]))
+        elif p[0] == "D":
+            fops.append("Build_fop %s FRemove" % p[1])
+        else:
+            fops.append("Build_fop %s FRead" % p[1])
+    issue = []
+    for i, o in enumerate(sc["ops"]):
+        if o[0] in "WD":
+            issue += ["LFetch %d" % idx[i], "LRef %d" % idx[i]]
+    groups = ["[" + "; ".join(issue) + "]"]
+    for i in sc["order"]:
+        o = sc["ops"][i]
+        if o[0] == "L":
+            groups.append("[]")
+        elif o[0] == "G":
+            groups.append("[LRef %d; LExec %d; LClean %d]" % (idx[i], idx[i], idx[i]))
+        else:
+            groups.append("[LExec %d; LClean %d]" % (idx[i], idx[i]))
+    return "run_steps [%s] finit [%s] [%s]" % ("; ".join(fops), "; ".join(groups), "; ".join(str(k) for k in range(nkeys)))
+
+
+def fs_amt(ctx, ver, seed, tasks, per, nkeys):
+    d = os.path.join(ctx.tmp, "afsmt-%s-%d" % (ver, seed))
+    rc, lines = ctx.run_bin("h_fsstore", "", args=["amt", ver, str(seed), str(tasks), str(per), str(nkeys), d], timeout=600)
+    per_key, problems, nops = {}, [], 0
+    for l in rlines(lines):
+        if not l.startswith("H "):
+            continue
+        left, res = l.split(" -> ")
+        p = left.split()
+        a, b, kind, k, arg = int(p[2]), int(p[3]), p[4], int(p[5]), p[6]
+        nops += 1
+        if res in ("torn", "err"):
+            problems.append("async concurrent history: operation returned %s: %s" % (res, l))
+        per_key.setdefault(k, []).append((a, b, kind, int(arg) if kind == "W" else None, res))
+    for k, ops in per_key.items():
+        if not lin_check_key(ops):
+            problems.append("async history of key %d is not linearizable to an atomic register (%d operations)" % (k, len(ops)))
+    return rc, nops, problems
+
+
 # ------------------------------------------------------------------ MonitorUpdatingPersister
-def mup_sync(ctx, seed, mp, npay, maxcrash):
-    rc, lines = ctx.run_bin("h_mup", "", args=["sync", str(seed), str(mp), str(npay), str(maxcrash)], timeout=1200)
-    out = {"calls": None, "ops": None, "crash": [], "summary": None, "panic": None}
+def mup_sync(ctx, seed, mp, npay, maxcrash, nfaults):
+    rc, lines = ctx.run_bin("h_mup", "", args=["sync", str(seed), str(mp), str(npay), str(maxcrash), str(nfaults)], timeout=1200)
+    out = {"calls": None, "ops": None, "crash": [], "summary": None, "panic": None, "faults": {}, "fattempts": {}}
     for l in rlines(lines):
         if l.startswith("calls "):
             out["calls"] = l.split()[2:]
@@ -221,9 +383,29 @@ def mup_sync(ctx, seed, mp, npay, maxcrash):
             out["crash"].append(l)
         elif l.startswith("summary "):
             out["summary"] = dict(kv.split("=") for kv in l.split()[1:])
+        elif l.startswith("fault "):
+            kv = dict(x.split("=", 1) for x in l.split()[1:] if "=" in x)
+            out["faults"][int(kv["sid"])] = dict(kv, line=l)
+        elif l.startswith("fattempts "):
+            p = l.split(" ", 3)
+            sid = int(p[2].split("=")[1])
+            out["fattempts"][sid] = [x.strip() for x in (p[3] if len(p) > 3 else "").split("|")]
         elif l.startswith("harness-panic"):
             out["panic"] = l
     return rc, out
+
+
+def sels_of_attempts(per_call):
+    """Per call: the outcome [csel] of the model and the operations really applied."""
+    sels, applied = [], []
+    for a in per_call:
+        toks = [t for t in a.split() if t[0] in "WR"]
+        applied.append([t[:-1] for t in toks if t.endswith("+")])
+        if not toks or toks[0].endswith("-"):
+            sels.append("SelNone")
+        else:
+            sels.append("SelWrite [" + "; ".join("true" if t.endswith("+") else "false" for t in toks[1:]) + "]")
+    return sels, applied
 
 
 def coq_calls(calls):
@@ -280,8 +462,15 @@ def run(ctx):
         ctx.violation("harness does not build against the current tree", {"broken": "harness-build", "log_tail": out[-3000:]}, False)
         ctx.write_evidence(LEVEL)
         return
+    gen_err = None
+    try:
+        generate(ctx)
+        ctx.obligations.append(("pin:cleanup-guarded-by-write_status (persist.rs)", True, "anchored structural check"))
+    except Exception as ex:
+        gen_err = str(ex)
+        ctx.obligations.append(("pin:cleanup-guarded-by-write_status (persist.rs)", False, gen_err))
     okm, outm = ctx.coq_make(["Model/KV.vo", "Model/MUP.vo", "Model/FsStoreProto.vo", "Model/BlockSync.vo"])
-    proved = ctx.prove("C19")
+    proved = ctx.prove("C19") and gen_err is None
     ctx.trusted_base += [
         "Coq 8.16.1 kernel + vm_compute (no native_compute)",
         "Model/KV.v, Model/MUP.v, Model/FsStoreProto.v: hand models of the KVStore contract, persist.rs MonitorUpdatingPersister and fs_store/common.rs, tied by differential execution (h_fsstore, h_mup)",
@@ -302,6 +491,7 @@ def run(ctx):
     # ---- 1. FilesystemStore sequential
     seq_runs = []
     exprs, metas = [], []
+    exprs_fault, exprs_aseq = [], []
     for ver in ("v1", "v2"):
         for j in range(3 if quick else 12):
             seed = rng.below(2 ** 31)
@@ -342,7 +532,7 @@ def run(ctx):
     mp_values = [0, 1, 2, 3, 5, 7] if quick else [0, 1, 2, 3, 4, 5, 7, 10, 13, 50]
     for mp in mp_values:
         seed = rng.below(2 ** 31)
-        rc, o = mup_sync(ctx, seed, mp, 14 if quick else 40, 130 if quick else 400)
+        rc, o = mup_sync(ctx, seed, mp, 14 if quick else 40, 130 if quick else 400, 36 if quick else 90)
         mups.append((mp, seed, rc, o))
         if rc != 0 or o["panic"] or o["summary"] is None:
             problems.append(("mup", "h_mup sync crashed: %s" % (o["panic"] or "rc=%d" % rc), {"cmd": "h_mup sync %d %d ..." % (seed, mp)}))
@@ -353,12 +543,62 @@ def run(ctx):
         if int(o["summary"].get("stray_ops", "0")) != 0:
             problems.append(("mup", "store operations outside any persister call", {"summary": o["summary"]}))
         exprs.append("trace %d {| durable := []; limbo := [] |} %s" % (mp, coq_calls(o["calls"])))
+        for sid in sorted(o["faults"]):
+            f = o["faults"][sid]
+            if f.get("ok") != "1":
+                problems.append(("mup-fault", "with failing store operations %s (operation indices) the persister loses a reported update or cleans up an update recovery needs: %s" % (f.get("fails"), f["line"]),
+                                 {"cmd": "h_mup sync %d %d %d %d %d" % (seed, mp, 14 if quick else 40, 130 if quick else 400, 36 if quick else 90), "line": f["line"],
+                                  "attempts": o["fattempts"].get(sid)}))
+    # fault scripts: per-call outcomes for the model
+    fault_meta = []
+    for mp, seed, rc, o in mups:
+        if rc != 0 or o["summary"] is None:
+            continue
+        calls = [c for c in o["calls"] if not c.startswith("A")]
+        for sid in sorted(o["fattempts"]):
+            per_call = o["fattempts"][sid]
+            sels, applied = sels_of_attempts(per_call)
+            ncmp = len(per_call)
+            for ci, a in enumerate(per_call):
+                if calls[ci].startswith("C") and any(t.endswith("-") and t[0] == "R" for t in a.split()):
+                    ncmp = ci   # a failed removal inside cleanup_stale_updates: listing order makes the subset ambiguous
+                    break
+            fault_meta.append((mp, seed, sid, calls[:ncmp], applied[:ncmp], o["faults"].get(sid, {}).get("fails")))
+            exprs_fault.append("trace_f %d {| durable := []; limbo := [] |} %s [%s]" % (mp, coq_calls(calls[:ncmp]), "; ".join(sels[:ncmp])))
+    # asynchronous FilesystemStore: issue order vs completion order
+    aseq_meta = []
+    for ver in ("v1", "v2"):
+        for j in range(2 if quick else 6):
+            seed = rng.below(2 ** 31)
+            rc, scen = fs_aseq(ctx, ver, seed, 40 if quick else 150)
+            if rc != 0 or not scen:
+                problems.append(("fs-async", "h_fsstore aseq exited %d with %d scenarios" % (rc, len(scen)), {"cmd": "h_fsstore aseq %s %d ..." % (ver, seed)}))
+            for sid in sorted(scen):
+                pr = judge_aseq(scen[sid])
+                if pr:
+                    problems.append(("fs-async", "FilesystemStore %s async API: %s" % (ver, pr[0]),
+                                     {"cmd": "h_fsstore aseq %s %d %d <dir>  (scenario %d)" % (ver, seed, 40 if quick else 150, sid),
+                                      "issued": scen[sid]["ops"], "completion_order": scen[sid]["order"], "observed_steps": scen[sid]["steps"]}))
+                aseq_meta.append((ver, seed, sid, scen[sid]))
+                exprs_aseq.append(aseq_coq(scen[sid]))
+    amt_runs = []
+    for ver in ("v1", "v2"):
+        for j in range(2 if quick else 8):
+            seed = rng.below(2 ** 31)
+            rc, nops_a, pr = fs_amt(ctx, ver, seed, 6, 20 if quick else 30, 3)
+            amt_runs.append((ver, seed, nops_a, len(pr)))
+            if rc != 0:
+                pr.append("h_fsstore amt exited %d" % rc)
+            for p_ in pr[:2]:
+                problems.append(("fs-async-mt", p_, {"cmd": "h_fsstore amt %s %d 6 %d 3 <dir>" % (ver, seed, 20 if quick else 30)}))
+    n_base_exprs = len(exprs)
+    exprs = exprs + exprs_fault + exprs_aseq
     # ---- model side (one batch)
     model_err = None
     vals = []
     if okm:
         try:
-            vals = ctx.coq_eval("corr_c19", COQ_IMPORTS, exprs, prelude=PRELUDE, shards=min(8, len(exprs)), timeout=900)
+            vals = ctx.coq_eval("corr_c19", COQ_IMPORTS, exprs, prelude=PRELUDE, shards=min(16, max(1, len(exprs) // 6)), timeout=900)
         except RuntimeError as ex:
             model_err = str(ex)[-2000:]
             ctx.log("model evaluation failed:", model_err)
@@ -420,6 +660,27 @@ def run(ctx):
                     break
             if len(mod) != len(o["ops"]):
                 disagreements.append({"topic": "MUP call count", "mp": mp, "model": len(mod), "impl": len(o["ops"])})
+        vi = n_base_exprs
+        for (mp, seed, sid, calls, applied, fails) in fault_meta:
+            mod = parse_strs(vals[vi])
+            vi += 1
+            for ci, (c, a, b) in enumerate(zip(calls, mod, applied)):
+                if sorted(a.split()) != sorted(b):
+                    disagreements.append({"topic": "MonitorUpdatingPersister under failing store operations vs Model/MUP.v (sel_ops)", "maximum_pending_updates": mp,
+                                          "seed": seed, "failing_op_indices": fails, "call_index": ci, "call": c, "model_applies": a, "impl_applies": " ".join(b)})
+                    break
+        for (ver, seed, sid, sc) in aseq_meta:
+            mod = parse_strs(vals[vi])
+            vi += 1
+            got = [" ".join(st["state"]) for st in sc["steps"]]
+            if mod and mod[-1].endswith(" +lock"):
+                disagreements.append({"topic": "Model/FsStoreProto.v: lock table not empty after all operations completed", "scenario": sid, "issued": sc["ops"]})
+            mod = [x.replace(" +lock", "") for x in mod]
+            if mod[1:] != got:
+                k = next((i for i, (a, b) in enumerate(zip(mod[1:], got)) if a != b), 0)
+                disagreements.append({"topic": "FilesystemStore %s async API vs Model/FsStoreProto.v" % ver, "seed": seed, "scenario": sid,
+                                      "issued": sc["ops"], "completion_order": sc["order"], "step": k,
+                                      "model": mod[1:][k] if k < len(mod) - 1 else None, "impl": got[k] if k < len(got) else None})
     # ---- 3. FilesystemStore concurrent
     mt_runs = []
     for ver in ("v1", "v2"):
@@ -449,8 +710,10 @@ def run(ctx):
     cov.update({
         "fs_sequential_runs": [{"store": v, "seed": s, "ops": n, "problems": p} for v, s, n, p in seq_runs],
         "fs_concurrent_runs": [{"store": v, "seed": s, "threads": t, "ops": n, "problems": p} for v, s, t, n, p in mt_runs],
+        "fs_async_scenarios": len(aseq_meta), "fs_async_mt_runs": [{"store": v, "seed": sd, "ops": n, "problems": p_} for v, sd, n, p_ in amt_runs],
+        "mup_fault_scripts": sum(len(o["faults"]) for _, _, _, o in mups),
         "mup_runs": [{"maximum_pending_updates": mp, "seed": s, "summary": o["summary"]} for mp, s, _, o in mups],
-        "evaluations": nseq_ops + nmt_ops + nrec,
+        "evaluations": nseq_ops + nmt_ops + nrec + sum(len(m[3]["order"]) for m in aseq_meta) + sum(n for _, _, n, _ in amt_runs) + 2 * sum(len(o["faults"]) for _, _, _, o in mups),
         "distinct_nontrivial": nrec + len(set((v, tuple(m[2])) for v, m in zip([x[0] for x in metas], metas))) + len(mt_runs),
         "rule": "evaluations = sequential store operations compared with the KV model + concurrent operations judged for linearizability + crash recoveries (one per crash prefix x lazy-removal choice) of the real persister with real monitors; non-trivial = each crash recovery that found a monitor (distinct by construction: prefix index x lazy mode x maximum_pending_updates) + each distinct sequential transcript + each concurrent history",
         "disagreements": len(disagreements),
